@@ -231,6 +231,8 @@ def gen_section_doc(rng, lang: str, explicit_only: bool):
             opts.append(('target_endianness', L(rng.choice(['any', 'big', 'little']), rng.random() < pd)))
         if lang == 'cpp' and rng.random() < 0.5:
             opts.append(('std', L(rng.choice(['c++14', 'c++17', 'c++17-pmr', 'c++20', 'cetl++14-17']), rng.random() < pd)))
+        if lang == 'cpp' and rng.random() < 0.25:      # a value that coincides with / differs from what a shorthand group would set
+            opts.append(('std_flavor', L(rng.choice(['std', 'pmr', 'cetl']))))
         if lang == 'cpp' and rng.random() < 0.3:
             opts.append(('allocator_type', L(rng.choice(['', 'my::alloc']))))
         if lang == 'cpp' and rng.random() < 0.2:
@@ -547,6 +549,42 @@ def run_model(exe: str, codec: Codec, lines: typing.List[str]):
     return out
 
 
+_PARSER_TABLE = None
+
+
+def given_dests(argv) -> typing.Set[str]:
+    """argparse dests whose option string literally occurs in argv (regenerated table of cli/__init__.py add_argument calls)"""
+    global _PARSER_TABLE
+    if _PARSER_TABLE is None:
+        from tools.translators import gen_c13
+        try:
+            _PARSER_TABLE = {f: r['dest'] for r in gen_c13.parser_table() for f in r['flags']}
+        except Exception:  # noqa: translator fails closed elsewhere; fall back to the long-option convention
+            _PARSER_TABLE = {}
+    out = set()
+    for t in argv:
+        if t.startswith('-'):
+            out.add(_PARSER_TABLE.get(t, t.lstrip('-').replace('-', '_')))
+    return out
+
+
+def doc_group_mismatches() -> typing.Optional[typing.List[typing.List[str]]]:
+    """(shorthand, key) where docs/languages.rst documents another value than properties.yaml applies"""
+    from tools.translators import gen_c13
+    try:
+        docs = gen_c13.documented_shorthand_groups()
+        props = gen_c13.load_properties()['nunavut.lang.cpp'].get('defaults', {})
+    except Exception:  # noqa
+        return None
+    out = []
+    for n, g in docs.items():
+        for k, v in g.items():
+            if props.get(n, {}).get(k) != v:
+                out.append([n, k])
+    out += [[n, ''] for n in props if n not in docs] + [[n, ''] for n in docs if n not in props]
+    return out
+
+
 def known_entries(chk: core.Check) -> None:
     """entries of known_findings.d/C13.json not yet merged into known_findings.json by the lead"""
     path = os.path.join(core.VERIF, 'known_findings.d', 'C13.json')
@@ -700,7 +738,9 @@ def main(chk: core.Check, replay: typing.Optional[str] = None) -> int:
     impl = run_impl(all_reqs)
     for r, o in zip(all_reqs, impl):
         if r['kind'] == 'cli':
-            r['args'] = o.get('args', {})
+            # the model gets only what is literally GIVEN on the command line (decided from argv with the regenerated argparse table);
+            # the values of given options are taken as parsed (type= conversions); everything else comes from the regenerated defaults
+            r['args'] = {d: v for d, v in o.get('args', {}).items() if d in given_dests(r['argv'])}
     ok_model, exe, log = core.build_extracted('c13', 'ExtractC13.v', 'c13_driver.ml')
     codec = Codec()
     model = None
@@ -720,6 +760,17 @@ def main(chk: core.Check, replay: typing.Optional[str] = None) -> int:
         reuse_live = False
     if reuse_live and chk.is_known('F-CFG-REUSE'):
         chk.report_known('F-CFG-REUSE')
+
+    # documented shorthand groups vs applied groups (values): known documentation defect F-DOC-STDGROUP
+    doc_mis = doc_group_mismatches()
+    doc_other = None
+    if doc_mis is not None:
+        known_pair = ['c++17-pmr', 'allocator_include']
+        if known_pair in doc_mis and chk.is_known('F-DOC-STDGROUP'):
+            chk.report_known('F-DOC-STDGROUP')
+            doc_other = [m for m in doc_mis if m != known_pair]
+        else:
+            doc_other = doc_mis
 
     stats: typing.Dict[str, int] = {'merge_cases': len(merge_cases), 'proc_cases': len(proc_cases), 'cli_cases': len(cli_cases),
                                     'permuted_interleavings': len(perm_cases), 'model_vs_impl_compared': 0, 'oracle_vs_impl_compared': 0,
@@ -768,6 +819,10 @@ def main(chk: core.Check, replay: typing.Optional[str] = None) -> int:
             stats['multi_builder_cases'] += sum(1 for x in r['ops'] if x[0] == 'new') > 1
             stats['create_raised'] += sum(1 for c in o['creates'] if c['options'] == 'ERR')
             stats['oracle_vs_impl_compared'] += 1
+            stats['yaml_documents_deep_compared'] = stats.get('yaml_documents_deep_compared', 0) + o.get('yaml_docs', {}).get('checked', 0)
+            if o.get('yaml_docs', {}).get('modified'):
+                bad_oracle.append((r, 'a yaml-loaded source document (dicts / nested lists) was modified by the builder operations',
+                                   [], o['yaml_docs']['modified']))
             if not o['docs_unmodified']:
                 bad_oracle.append((r, 'a document or override value passed to the API was modified', None, None))
             # earlier-context stability: every context must still report what it reported when it was created
@@ -837,8 +892,19 @@ def main(chk: core.Check, replay: typing.Optional[str] = None) -> int:
                     exp_sec = o_merge(exp_sec, canon(f))
                 file_opts = exp_sec.get('nunavut.lang.' + r['lang'], {}).get('options', {})
                 got_opts = canon(o['options'])
+                stats['yaml_documents_deep_compared'] = stats.get('yaml_documents_deep_compared', 0) + o.get('yaml_docs', {}).get('checked', 0)
+                if o.get('yaml_docs', {}).get('modified'):
+                    bad_oracle.append((r, 'a yaml-loaded source document was modified by the CLI context creation', [], o['yaml_docs']['modified']))
+                gd = given_dests(r['argv'])
+                # oracle: an option that is NOT on the command line leaves the merged file value in force
+                if 'target_endianness' not in gd and got_opts.get('target_endianness') != file_opts.get('target_endianness'):
+                    bad_oracle.append((r, 'target_endianness is not given on the command line but the effective value is not the file value',
+                                       file_opts.get('target_endianness'), got_opts.get('target_endianness')))
+                if 'language_standard' not in gd and r['lang'] != 'cpp' and got_opts.get('std') != file_opts.get('std'):
+                    bad_oracle.append((r, 'std is not given on the command line but the effective value is not the file value',
+                                       file_opts.get('std'), got_opts.get('std')))
                 for f in FLAGS:
-                    given = bool(o['args'].get(f))
+                    given = f in gd
                     if r['lang'] == 'py' and f == 'enable_serialization_asserts':
                         continue
                     want = ('L', False, ('B', True)) if given else file_opts.get(f, ('L', True, ('B', False)))
@@ -851,7 +917,9 @@ def main(chk: core.Check, replay: typing.Optional[str] = None) -> int:
                         bad_oracle.append((r, 'explicit --target-endianness does not win over the configuration files', want,
                                            got_opts.get('target_endianness')))
                 # oracle: a -std shorthand given on the command line sets its whole (merged) group
-                std = o['args'].get('language_standard')
+                std = o['args'].get('language_standard') if 'language_standard' in gd else None
+                if std is None and isinstance(file_opts.get('std'), tuple) and isinstance(file_opts['std'][2], str):
+                    std = file_opts['std'][2]          # the shorthand may also be selected by a configuration file
                 grp = exp_sec.get('nunavut.lang.cpp', {}).get('defaults', {}).get(std) if r['lang'] == 'cpp' and isinstance(std, str) else None
                 if isinstance(grp, dict):
                     for k, want in grp.items():
@@ -961,6 +1029,9 @@ def main(chk: core.Check, replay: typing.Optional[str] = None) -> int:
     def strip(r):
         return {k: v for k, v in r.items() if k not in ('perm_of',)}
 
+    if doc_other:
+        bad_oracle.append(({'kind': 'docs', 'mismatches': doc_other},
+                           'docs/languages.rst documents another option group for a -std shorthand than properties.yaml applies', [], doc_other))
     if bad_oracle:
         r, what, exp, got = bad_oracle[0]
         chk.violation({'case': strip(r), 'what': what, 'expected_by_property': exp, 'implementation': got, 'broken': broken,
